@@ -355,223 +355,6 @@ func renderHCL(d scDesc) string {
 	return b.String()
 }
 
-// ------------------------------------------------------------------ HCL with locals and functions
-
-// hclLocals collects definitions for two chained locals blocks (the second may refer to the first, as in
-// docs/eng/scenario/locals.md) and hands out expressions that evaluate to the wanted value.
-type hclLocals struct {
-	first, second []string
-	n             int
-}
-
-func (l *hclLocals) def1(prefix, expr string) string {
-	l.n++
-	name := fmt.Sprintf("%s_%d", prefix, l.n)
-	l.first = append(l.first, "  "+name+" = "+expr)
-	return "local." + name
-}
-
-func (l *hclLocals) def2(prefix, expr string) string {
-	l.n++
-	name := fmt.Sprintf("%s_%d", prefix, l.n)
-	l.second = append(l.second, "  "+name+" = "+expr)
-	return "local." + name
-}
-
-// mapExpr: an expression for the map `ps` built with the documented collection functions
-func (l *hclLocals) mapExpr(ps dPairs, ind string) string {
-	obj := func(x dPairs) string { return hclObj(x, ind, hclKeyL, hclStrL) }
-	switch len(ps) {
-	case 0:
-		return "merge({}, {})"
-	case 1:
-		// zipmap over a local list of keys and an inline list of values
-		ks := l.def1("keys", hclList([]string{ps[0][0]}, hclQuote))
-		return "zipmap(" + ks + ", [" + hclQuote(ps[0][1]) + "])"
-	default:
-		// the documented idiom: common part in locals, merged with the rest; the second block re-derives the
-		// common part through keys()/values()
-		common := l.def1("common", hclObj(ps[:1], "  ", hclKeyL, hclStrL))
-		again := l.def2("again", "zipmap(keys("+common+"), values("+common+"))")
-		return "merge(" + again + ", " + obj(ps[1:]) + ")"
-	}
-}
-
-// listExpr: an expression for the list xs
-func (l *hclLocals) listExpr(xs []string) string {
-	switch len(xs) {
-	case 0:
-		return "concat([], [])"
-	case 1:
-		return "coalescelist([], " + hclList(xs, hclQuote) + ")"
-	case 2:
-		head := l.def1("head", hclList(xs[:1], hclQuote))
-		return "concat(" + head + ", reverse(flatten([[" + hclQuote(xs[1]) + "]])))"
-	default:
-		// first element from locals, the middle through slice() of a longer list, the last through reverse()
-		head := l.def1("head", hclList(xs[:1], hclQuote))
-		whole := l.def1("whole", hclList(xs, hclQuote))
-		mid := l.def2("mid", fmt.Sprintf("slice(%s, 1, %d)", whole, len(xs)-1))
-		return "concat(" + head + ", " + mid + ", reverse([" + hclQuote(xs[len(xs)-1]) + "]))"
-	}
-}
-
-// strExpr: an expression for the string a; `how` picks the convenience
-func (l *hclLocals) strExpr(a string, how int) string {
-	switch how % 5 {
-	case 4:
-		// template interpolation of a local, as in the repository's own payload ("source.users[${local.next}].user_id"):
-		// the first half of the value comes from locals, the rest is written in place
-		rs := []rune(lit(a))
-		head, rest := string(rs[:len(rs)/2]), string(rs[len(rs)/2:])
-		h := l.def1("half", `"`+hclQuoteInner(head)+`"`)
-		return `"${` + h + `}` + hclQuoteInner(rest) + `"`
-	case 0:
-		return l.def1("str", hclStrL(a))
-	case 1:
-		return "element([" + hclQuote("unused") + ", " + hclQuote(a) + "], 1)"
-	case 2:
-		m := l.def1("tbl", "{\n    wanted = "+hclStrL(a)+"\n    other = "+hclQuote("other")+"\n  }")
-		return "lookup(" + m + ", " + hclQuote("wanted") + ", " + hclQuote("default") + ")"
-	default:
-		s := l.def1("str", hclStrL(a))
-		return "coalesce(" + s + ", " + hclQuote("unused") + ")"
-	}
-}
-
-func (l *hclLocals) numExpr(n int) string {
-	return l.def2("num", fmt.Sprintf("element([%d, -1], 0)", n))
-}
-
-func (l *hclLocals) blocks() string {
-	var b strings.Builder
-	// the documentation's example repeats a name in both blocks; later blocks win
-	b.WriteString("locals {\n  next = \"next\"\n" + strings.Join(l.first, "\n"))
-	if len(l.first) > 0 {
-		b.WriteString("\n")
-	}
-	b.WriteString("}\nlocals {\n  next = \"next\"\n" + strings.Join(l.second, "\n"))
-	if len(l.second) > 0 {
-		b.WriteString("\n")
-	}
-	b.WriteString("}\n")
-	return b.String()
-}
-
-func renderHCLLocals(d scDesc) string {
-	var b strings.Builder
-	l := &hclLocals{}
-	w := func(f string, a ...interface{}) { fmt.Fprintf(&b, f, a...) }
-	q := hclQuote
-	k := scSeed() // which convenience is used where rotates with VERIF_SEED
-	str := func(a string) string { k++; return l.strExpr(a, k) }
-	for _, s := range d.Sources {
-		w("variable_source %s %s {\n", q(s.Name), q(s.Type))
-		if len(s.File) == 1 {
-			w("  file = %s\n", str(s.File[0]))
-		}
-		if len(s.Fields) == 1 {
-			w("  fields = %s\n", l.listExpr(s.Fields[0]))
-		}
-		if len(s.Ifl) == 1 {
-			w("  ignore_first_line = element([%v, %v], 0)\n", s.Ifl[0], !s.Ifl[0])
-		}
-		if len(s.Delim) == 1 {
-			w("  delimiter = %s\n", str(s.Delim[0]))
-		}
-		if len(s.Variables) == 1 {
-			if len(s.Numvars) == 0 {
-				w("  variables = %s\n", l.mapExpr(s.Variables[0], "  "))
-			} else {
-				w("  variables = merge(%s, {\n", l.mapExpr(s.Variables[0], "  "))
-				for _, nv := range s.Numvars {
-					w("    %s = %d\n", nv.Key, nv.Val)
-				}
-				w("  })\n")
-			}
-		}
-		w("}\n")
-	}
-	for _, r := range d.Requests {
-		w("request %s {\n", q(r.Name))
-		w("  method = %s\n", str(r.Method))
-		w("  uri = %s\n", str(r.URI))
-		if len(r.Headers) == 1 {
-			w("  headers = %s\n", l.mapExpr(r.Headers[0], "  "))
-		}
-		if len(r.Tag) == 1 {
-			w("  tag = %s\n", str(r.Tag[0]))
-		}
-		if len(r.Body) == 1 {
-			w("  body = %s\n", hclStrL(r.Body[0])) // the documented form: heredoc body
-		}
-		if len(r.Templater) == 1 {
-			w("  templater {\n    type = %s\n  }\n", str(r.Templater[0]))
-		}
-		if len(r.Pre) == 1 {
-			w("  preprocessor {\n    mapping = %s\n  }\n", l.mapExpr(r.Pre[0], "    "))
-		}
-		for _, p := range r.Posts {
-			w("  postprocessor %s {\n", q(p.Type))
-			if len(p.Mapping) == 1 {
-				w("    mapping = %s\n", l.mapExpr(p.Mapping[0], "    "))
-			}
-			if len(p.Headers) == 1 {
-				w("    headers = %s\n", l.mapExpr(p.Headers[0], "    "))
-			}
-			if len(p.Body) == 1 {
-				w("    body = %s\n", l.listExpr(p.Body[0]))
-			}
-			if len(p.Status) == 1 {
-				w("    status_code = %s\n", l.numExpr(p.Status[0]))
-			}
-			if len(p.Size) == 1 {
-				w("    size {\n      val = %s\n      op = %s\n    }\n", l.numExpr(p.Size[0].Val), str(p.Size[0].Op))
-			}
-			w("  }\n")
-		}
-		w("}\n")
-	}
-	for _, c := range d.Calls {
-		w("call %s {\n", q(c.Name))
-		w("  call = %s\n", str(c.Call))
-		if len(c.Tag) == 1 {
-			w("  tag = %s\n", str(c.Tag[0]))
-		}
-		if len(c.Metadata) == 1 {
-			w("  metadata = %s\n", l.mapExpr(c.Metadata[0], "  "))
-		}
-		for _, p := range c.Pres {
-			w("  preprocessor %s {\n    mapping = %s\n  }\n", q(p.Type), l.mapExpr(p.Mapping, "    "))
-		}
-		w("  payload = %s\n", hclStrL(c.Payload))
-		for _, p := range c.Posts {
-			w("  postprocessor %s {\n", q(p.Type))
-			if len(p.Payload) == 1 {
-				w("    payload = %s\n", l.listExpr(p.Payload[0]))
-			}
-			if len(p.Status) == 1 {
-				w("    status_code = %s\n", l.numExpr(p.Status[0]))
-			}
-			w("  }\n")
-		}
-		w("}\n")
-	}
-	for _, sc := range d.Scenarios {
-		w("scenario %s {\n", q(sc.Name))
-		if len(sc.Weight) == 1 {
-			w("  weight = %s\n", l.numExpr(sc.Weight[0]))
-		}
-		if len(sc.Mwt) == 1 {
-			w("  min_waiting_time = %s\n", l.numExpr(sc.Mwt[0]))
-		}
-		w("  requests = %s\n", l.listExpr(stepTexts(sc)))
-		w("}\n")
-	}
-	// comments of all three kinds; nothing in them is evaluated
-	return "// scenario \"file\" ${not.evaluated} %{if}\n# second comment style: 'x'\n/* block\n   comment */\n" + l.blocks() + b.String()
-}
-
 // ------------------------------------------------------------------ YAML string syntax
 
 // yamlDQ: double-quoted scalar (YAML 1.1 escapes); exact for every string.
